@@ -45,6 +45,11 @@ def opsNetlink : List String → Option (String × String)
       | none => "dec-err"
       | some li => s!"{String.ofList (li.kind.map fun (b : UInt8) => Char.ofNat b.toNat)} {showVals li.bt} {showVals li.cm}"
     some (s!"{bytesHex enc} | {dec}", "-")
+  | ["nlraw", h] => do
+    let b ← hexBytes? h
+    match decodeLinkInfo b with
+    | none => some ("dec-err", "-")
+    | some li => some (s!"{String.ofList (li.kind.map fun (b : UInt8) => Char.ofNat b.toNat)} {showVals li.bt} {showVals li.cm}", "-")
   | _ => none
 
 end Driver
